@@ -135,7 +135,7 @@ class Signature:
         return [f for f in self.funs if f[2] == sort]
 
 
-def make_signature(rng, prof):
+def make_signature(rng, prof, bool_args=True):
     sig = Signature()
     p = PROFILES[prof]
     for i in range(p['usorts'] if p['usorts'] <= 1 else rng.randint(1, p['usorts'])):
@@ -156,7 +156,7 @@ def make_signature(rng, prof):
             cands += [('fn_' + pre, [ns], ns), ('pn_' + pre, [ns], 'Bool'), ('gn_' + pre, [ns, ns], ns)]
             for u in sig.sorts:
                 cands += [('fu_' + pre, [ns], u), ('h_' + pre, [u], ns)]
-        if base:
+        if base and bool_args:
             cands += [('fb', ['Bool'], base[0]), ('pb', ['Bool', base[0]], 'Bool')]
         rng.shuffle(cands)
         sig.funs = cands[:rng.randint(1, 4)]
@@ -190,6 +190,7 @@ class TermGen:
         self.max_depth = max_depth
         self.macros = []   # live define-funs: (name, [param sorts], ret)
         self.let_id = 0
+        self.allow_let = True
 
     # ---------------------------------------------------------------- constants
     def const(self, sort):
@@ -371,6 +372,8 @@ class TermGen:
             return T('app', 'Bool', head='=', args=[self.boolean(d - 1), self.boolean(d - 1)])
         if c < 0.96:
             return T('app', 'Bool', head='ite', args=[self.boolean(d - 1), self.boolean(d - 1), self.boolean(d - 1)])
+        if not self.allow_let:
+            return self.atom(d)
         # let: bind one or two subterms, use them in the body
         self.let_id += 1
         my_id = self.let_id
